@@ -316,6 +316,12 @@ func HarnessC19Sizes() {
 	for i := 0; i < nb; i++ {
 		kb = append(kb, c19ManyKeys[2*i+1].Int64(base+int64(2*i+1)))
 	}
+	// a repeated key in a long list: the value supplied last wins (sizes above
+	// the stable range of an unstable sort)
+	dup := na >= 7 && vndChoice(2) == 1
+	if dup {
+		ka = append([]attribute.KeyValue{c19ManyKeys[0].Int64(base - 1)}, ka...)
+	}
 	r, err := Merge(NewSchemaless(ka...), NewSchemaless(kb...))
 	vndReach("merged")
 	vndAssert(err == nil, "merge-no-error")
@@ -345,4 +351,33 @@ func HarnessC19InvalidOnly() {
 	vndAssert(r != nil && r.SchemaURL() == "https://s2" && r.Len() == 1, "merge-with-empty-is-the-identity")
 	r2, err2 := Merge(b, full)
 	vndAssert(err2 == nil && r2 != nil && r2.SchemaURL() == "https://s2" && r2.Len() == 1, "merge-with-empty-is-the-identity")
+}
+
+// C19.detectorlist: resource.New with detector options does not disturb the
+// caller's detector slice; each resource holds exactly its detectors' attributes
+func HarnessC19DetectorList() {
+	mk := func(i int) Detector {
+		return c19Detector{res: NewSchemaless(c19ManyKeys[i].Int64(int64(i)))}
+	}
+	list := []Detector{mk(0), mk(1), mk(2)}
+	k := 1 + vndChoice(2) // the first option takes list[:k], leaving spare capacity
+	r1, err := New(context.Background(), WithDetectors(list[:k]...), WithDetectors(mk(5)))
+	vndAssert(err == nil && r1 != nil, "new-no-error")
+	if r1 == nil {
+		return
+	}
+	vndReach("built")
+	vndAssert(r1.Len() == k+1, "resource-holds-exactly-its-detectors-attributes")
+	_, has5 := r1.Set().Value(c19ManyKeys[5])
+	vndAssert(has5, "later-detector-contributes")
+	r2, err2 := Detect(context.Background(), list...)
+	vndAssert(err2 == nil && r2 != nil, "detect-no-error")
+	if r2 == nil {
+		return
+	}
+	vndAssert(r2.Len() == 3, "callers-detector-list-undisturbed")
+	for i := 0; i < 3; i++ {
+		_, ok := r2.Set().Value(c19ManyKeys[i])
+		vndAssert(ok, "callers-detector-list-undisturbed")
+	}
 }
